@@ -6,6 +6,7 @@ import (
 	"os"
 	"path/filepath"
 	"strings"
+	"unicode/utf8"
 
 	"github.com/tsawler/tabula"
 	"github.com/tsawler/tabula/core"
@@ -201,5 +202,17 @@ func viaPDF(fs fontSpec, strs [][]byte) ([]string, []byte, error) {
 		return nil, data, err
 	}
 	t, err := fragTexts(frags, len(strs))
-	return t, data, err
+	if err != nil {
+		return t, data, err
+	}
+	// the assembled page text is "text the library returns" too: it must at least be valid UTF-8
+	// (NFC is only demanded per decoded string, the weakest reading of the statement)
+	txt, _, terr := tabula.Open(p).Text()
+	if terr != nil {
+		return nil, data, fmt.Errorf("Text(): %w", terr)
+	}
+	if !utf8.ValidString(txt) {
+		return nil, data, fmt.Errorf("Text() returned invalid UTF-8: % x", txt)
+	}
+	return t, data, nil
 }
